@@ -429,6 +429,32 @@ fn ints_through_bridge(g: &mut Gen, st: &mut Stats) -> CaseResult {
         let gotv = minicbor_serde::from_slice::<Vec<char>>(&v2).ok();
         ensure!(gotv == want.map(|c| vec![c]), "char-in-vec", "Vec<char> from {} = {:?}, the single item gives {:?}", short_hex(&v2), gotv, want);
         if want.is_some() { st.class(if minimal { "bridge-ints/char, shortest head" } else { "bridge-ints/char, wider head" }) }
+        // a self-describing target (deserialize_any with a visitor that takes any integer): what untagged / internally tagged
+        // enums, flattened structs and generic value types see
+        struct AnyInt(i128);
+        impl<'de> Deserialize<'de> for AnyInt {
+            fn deserialize<D: serde::Deserializer<'de>>(d: D) -> Result<Self, D::Error> {
+                struct V;
+                impl<'de> serde::de::Visitor<'de> for V {
+                    type Value = AnyInt;
+                    fn expecting(&self, f: &mut std::fmt::Formatter) -> std::fmt::Result { f.write_str("an integer") }
+                    fn visit_u64<E: serde::de::Error>(self, v: u64) -> Result<AnyInt, E> { Ok(AnyInt(v as i128)) }
+                    fn visit_i64<E: serde::de::Error>(self, v: i64) -> Result<AnyInt, E> { Ok(AnyInt(v as i128)) }
+                    fn visit_u128<E: serde::de::Error>(self, v: u128) -> Result<AnyInt, E> { Ok(AnyInt(v as i128)) }
+                    fn visit_i128<E: serde::de::Error>(self, v: i128) -> Result<AnyInt, E> { Ok(AnyInt(v)) }
+                }
+                d.deserialize_any(V)
+            }
+        }
+        match minicbor_serde::from_slice::<AnyInt>(&bytes) {
+            Ok(AnyInt(x)) => ensure!(x == val, "any-wrong-value", "deserialize_any on {} visited {} but the item denotes {}", short_hex(&bytes), x, val),
+            // only an integer below i64::MIN has no serde 64-bit visitor method to go to
+            Err(e) => ensure!(val < i64::MIN as i128, "any-rejected", "deserialize_any on {} ({}): the item denotes {}, which fits a 64-bit visitor method, rejected: {}", short_hex(&bytes), if minimal { "shortest head" } else { "wider head" }, val, e)
+        }
+        #[derive(Debug, PartialEq, Deserialize)] #[serde(untagged)] enum UInt { I(i64), U(u64) }
+        let want_u = if let Ok(i) = i64::try_from(val) { Some(UInt::I(i)) } else if let Ok(u) = u64::try_from(val) { Some(UInt::U(u)) } else { None };
+        let got_u = minicbor_serde::from_slice::<UInt>(&bytes).ok();
+        ensure!(got_u == want_u, "untagged-int", "untagged {{ I(i64), U(u64) }} from {} = {:?}, the item denotes {}", short_hex(&bytes), got_u, val);
         Ok(())
     })?;
     st.class(&format!("bridge-ints/{} head of {} argument bytes{}", if neg { "negative" } else { "unsigned" }, [0, 1, 2, 4, 8][width], if minimal { "" } else { ", not shortest" }));
@@ -449,7 +475,7 @@ fn subs() -> Vec<Sub> {
               kind: Kind::Random { quick: 150_000, thorough: 1_000_000, tape: 256, f: borrowed_buffered } },
         Sub { prop: "C12S", name: "bridge-floats", rule: "f32 / f64 bit patterns (boundary-dense, signalling NaNs and payloads included) through the serde bridge - top level, Vec, Option and the contexts serde buffers through deserialize_any (untagged, internally tagged, flatten): identical bit pattern back, wire width = width of the Rust type, f64 item refused by an f32 target, f32 item widens exactly, every half item read as f32 / f64 equals the reference value",
               kind: Kind::Random { quick: 300_000, thorough: 3_000_000, tape: 128, f: floats_through_bridge } },
-        Sub { prop: "C05S", name: "bridge-ints", rule: "integer item = sign x head width (immediate, 1, 2, 4, 8 argument bytes; the argument need not be minimal for the width) x argument (2^k +- 3, type and surrogate boundaries, uniform): each of u8..u64, i8..i64, usize, isize through minicbor_serde::from_slice returns the value iff the mathematical value is representable (try_from over i128), else an error; char iff unsigned and a Unicode scalar value; the same verdict as element of a tuple / Vec and under Option; non-trivial = accepted by some but not all fixed-width integer targets",
+        Sub { prop: "C05S", name: "bridge-ints", rule: "integer item = sign x head width (immediate, 1, 2, 4, 8 argument bytes; the argument need not be minimal for the width) x argument (2^k +- 3, type and surrogate boundaries, uniform): each of u8..u64, i8..i64, usize, isize through minicbor_serde::from_slice returns the value iff the mathematical value is representable (try_from over i128), else an error; char iff unsigned and a Unicode scalar value; the same verdict as element of a tuple / Vec and under Option; a deserialize_any visitor and an untagged enum see the value whenever it fits 64 bits; non-trivial = accepted by some but not all fixed-width integer targets",
               kind: Kind::Random { quick: 600_000, thorough: 6_000_000, tape: 64, f: ints_through_bridge } },
         Sub { prop: "C18", name: "long-documents", rule: "sequences / maps / nested sequences of 130-2500 elements (many None, unit, tuple and array elements) in the shared model: the same oracle as shared-model; cumulative effects (depth or element counters, budgets) need this many elements to show",
               kind: Kind::Random { quick: 3_000, thorough: 60_000, tape: 16384, f: c18_long } },
